@@ -51,7 +51,8 @@ def run(ctx):
         ctx.violation("harness does not build against the repository", {"correspondence": "C06", "log": getattr(ctx, "hx_log", "")[-2000:]},
                       tag="build", found_input=False)
     K.decide_standard(ctx, corrs, FINDINGS)
-    K.report_mismatch(ctx, KV.spec_violated_factory(known))
+    KV.prefer_decidable_mismatch(ctx, known)
+    K.report_mismatch(ctx, KV.spec_violated_factory(known, ctx))
     c = corrs[0][2] if corrs else K.Corr()
     checked, devs = (0, [])
     if corrs and not c.err and not c.mismatch:
